@@ -52,11 +52,22 @@ class LazySegList:
                 yield Segment(text, G.build(rec))
 
 
+_no_color_route = [0]
+
+
 def make_console(system, no_color=False, terminal=True, legacy=False, **kw):
+    """`no_color` is the EFFECTIVE setting; how it is expressed rotates: the constructor flag (True / False, with the
+    NO_COLOR variable set or not - the flag wins) or the variable alone (flag left at None)."""
     from rich.console import Console
+    _no_color_route[0] += 1
+    r = _no_color_route[0] % 4
+    if no_color:
+        flag, env = [(True, {}), (None, {"NO_COLOR": "1"}), (True, {"NO_COLOR": ""}), (None, {"NO_COLOR": ""})][r]
+    else:
+        flag, env = [(False, {}), (None, {}), (False, {"NO_COLOR": "1"}), (False, {"NO_COLOR": ""})][r]
     return Console(file=io.StringIO(), width=kw.pop("width", 400), color_system=system,
-                   force_terminal=terminal, legacy_windows=legacy, no_color=no_color,
-                   _environ={}, **kw)
+                   force_terminal=terminal, legacy_windows=legacy, no_color=flag,
+                   _environ=env, **kw)
 
 
 def expected_color(spec, system, no_color):
@@ -256,19 +267,28 @@ def wl_text(ctx, rng, case_no):
             for i in range(a, b):
                 layers[i].append(rec)
     pstyle = G.rand_record(rng, p_attr=0.1) if rng.random() < 0.3 else None
-    console.print(t, style=G.build(pstyle) if pstyle else None, crop=False, no_wrap=True, overflow="ignore",
-                  end="")
+    # the text as the frame of a live display (LiveRender hands its lines over as pre-laid-out segments): what a
+    # print(style=...) made while the display runs writes for the frame is the frame in its OWN styles
+    as_frame = terminal and rng.random() < 0.15
+    if as_frame:
+        from rich.live_render import LiveRender
+        ctx.count("mon.live_frame_under_print_style")
+        console.print(LiveRender(t), style=G.build(pstyle) if pstyle else None, crop=False, end="")
+    else:
+        console.print(t, style=G.build(pstyle) if pstyle else None, crop=False, no_wrap=True, overflow="ignore",
+                      end="")
     stream = console.file.getvalue()
     items = []
     for i, ch in enumerate(s):
         # print(style=) is applied *under* the text's own styles (Segment.apply_style(style=...))
-        recs = ([pstyle] if pstyle else []) + ([base] if base else []) + layers[i]
+        recs = ([pstyle] if pstyle and not as_frame else []) + ([base] if base else []) + layers[i]
         rec = TV.fold_records(recs) if recs else None
         items.append(("text", ch, rec))
     wit = {"text": s, "spans": spans, "base": G.definition(base) if base else None,
            "print_style": G.definition(pstyle) if pstyle else None, "color_system": system,
            "no_color": no_color, "is_terminal": terminal, "legacy_windows": legacy, "stream": stream}
-    check_stream(ctx, stream, items, cfg, wit, ":printed-text")
+    wit["as_live_frame"] = as_frame
+    check_stream(ctx, stream, items, cfg, wit, ":live-frame" if as_frame else ":printed-text")
     ctx.case_done(("txt", repr(wit)), len(spans) >= 1, wit)
 
 
